@@ -8,6 +8,7 @@ package funcs
 import (
 	"fmt"
 	"math"
+	"reflect"
 	"strings"
 	"time"
 
@@ -242,4 +243,44 @@ func reIndexFuncArgs(fnStmt *ast.CallExpr, keyList []string, reqParm int) error 
 
 	fnStmt.Param = ret
 	return nil
+}
+
+// containsItself reports whether a list or map is reachable from itself
+// (a = [1]; a[0] = a). Formatting such a value with fmt never terminates.
+func containsItself(v any, path map[uintptr]struct{}) bool {
+	var p uintptr
+	switch x := v.(type) {
+	case []any:
+		if len(x) == 0 {
+			return false
+		}
+		p = reflect.ValueOf(x).Pointer()
+	case map[string]any:
+		if len(x) == 0 {
+			return false
+		}
+		p = reflect.ValueOf(x).Pointer()
+	default:
+		return false
+	}
+	if _, ok := path[p]; ok {
+		return true
+	}
+	path[p] = struct{}{}
+	defer delete(path, p)
+	switch x := v.(type) {
+	case []any:
+		for _, e := range x {
+			if containsItself(e, path) {
+				return true
+			}
+		}
+	case map[string]any:
+		for _, e := range x {
+			if containsItself(e, path) {
+				return true
+			}
+		}
+	}
+	return false
 }
